@@ -5,7 +5,7 @@ import numpy as np
 
 from simkit import oracle, scene
 from simkit.errors import HarnessError, InjectedCrash
-from simkit.sim import Sim, draw_sim_config, reset_process_state
+from simkit.sim import Sim, draw_sim_config, park_config, park_profile_config, reset_process_state
 from simkit.util import tb
 
 from . import C01
@@ -17,7 +17,9 @@ RULE = ("seeded SMatrix(interpolation=1, downsample=False) over no potential / A
         "positions (CustomScan / GridScan / LineScan) with a drawn CTF including aberrations (defocus, C30, C12+phi12, C21+phi21) and "
         "detectors; reference: Probe(same aperture and aberrations).scan through the same potential (eager). Subjects: eager "
         "SMatrix.scan; lazy SMatrix.scan with drawn max_batch_multislice / max_batch_reduction computed by SimScheduler. With "
-        "interpolation 2-3 (repeated cell): lazy = eager only (the cropped-window equivalence is not derived here). "
+        "half of the interpolation-1 runs also build ONE lazy S-matrix and compute 2-3 reductions of it (two CTFs, two scans) in one graph, "
+        "first under a profiling multi-worker schedule, then with one task parked at a shared store; each against its own Probe reference. "
+        "With interpolation 2-3 (repeated cell): lazy = eager only (the cropped-window equivalence is not derived here). "
         "distinct = (scenario hash, schedule hash); non-trivial = a potential or aberrations are present")
 ASSUMPTIONS = ["PRISM and multislice are different algorithms: values compared at rtol 1e-5 (float64) / 5e-4 (float32) of the result scale",
                "the interpolation>1 clause 'reduced probes equal cropped-window probes' is only checked as lazy = eager"]
@@ -55,7 +57,16 @@ def draw_scenario(ch):
             ab["phi21"] = ch.pick([0.3, 2.0], "phi21")
     scan = scene.draw_scan(ch, ext, kinds=("custom", "grid", "line"))
     dets = scene.draw_detectors(ch, amax, max_n=2)
-    return {"knobs": knobs, "interpolation": interp, "potential": pot, "energy": energy, "cutoff": cutoff, "aberrations": ab,
+    # session on ONE lazy S-matrix: 2-3 reductions (CTFs from {drawn, second}; two scans) computed in one graph
+    joint = None
+    if interp == 1 and ch.bool(0.45, "joint-reductions"):
+        ab2 = {"defocus": ch.pick([-80.0, 60.0, 15.0], "ab2-defocus")}
+        if ch.bool(0.5, "ab2-C30"):
+            ab2["C30"] = ch.pick([5e3, -1e4], "ab2-C30-val")
+        scan2 = scene.draw_scan(ch, ext, kinds=("custom", "line"))
+        joint = {"aberrations2": ab2, "scan2": scan2,
+                 "reductions": [[ch.pick([0, 1], "red-ctf"), ch.pick([0, 1], "red-scan")] for _ in range(ch.range(2, 3, "n-reductions"))]}
+    return {"knobs": knobs, "interpolation": interp, "potential": pot, "energy": energy, "cutoff": cutoff, "aberrations": ab, "joint": joint,
             "scan": scan, "detectors": dets, "extent": ext,
             "mb_multislice": ch.pick(["auto", 1, 3, 7], "mb-multislice"), "mb_reduction": ch.pick(["auto", 1, 2, 5], "mb-reduction")}
 
@@ -176,6 +187,52 @@ def run_one(run):
         raise
     except Exception as e:  # noqa: BLE001
         run.violate("prism-succeeds", sig(sc, "raise", "lazy", {"exc": type(e).__name__}), f"lazy SMatrix.scan raised {type(e).__name__}: {e} at {tb(e)}")
+    # ---- several reductions of ONE lazy S-matrix computed together (a focal series / several scans), each against its own reference ----
+    if sc.get("joint"):
+        import abtem
+        import dask
+
+        j = sc["joint"]
+        abs_ = [sc["aberrations"], j["aberrations2"]]
+        scans = [sc["scan"], j["scan2"]]
+        same_tol = oracle.tol_for(knobs["precision"])
+        try:
+            refs = []
+            for ci, si in j["reductions"]:
+                refs.append(run_reference({**sc, "aberrations": abs_[ci], "scan": scans[si]}))
+        except (HarnessError, InjectedCrash):
+            raise
+        except Exception:  # noqa: BLE001
+            refs = None
+        if refs is not None:
+            cands = 0
+            for step in range(2):
+                cfg = park_profile_config(ch) if step == 0 else (park_config(ch, cands) if cands else draw_sim_config(ch, force_threads=True, write_preempt=True))
+                simj = run.add_sim(Sim(ch, cfg))
+                try:
+                    with simj:
+                        pot = make_pot(sc)
+                        kw = dict(potential=pot) if pot is not None else dict(extent=tuple(sc["extent"]), gpts=tuple(sc["potential"]["gpts"]))
+                        sa = abtem.SMatrix(semiangle_cutoff=sc["cutoff"], energy=sc["energy"], interpolation=1, downsample=False, **kw).build(lazy=True)
+                        outs = []
+                        for ci, si in j["reductions"]:
+                            ctf = abtem.CTF(semiangle_cutoff=sc["cutoff"], energy=sc["energy"], **abs_[ci]) if abs_[ci] else None
+                            outs.append(as_list(sa.reduce(scan=scene.make_scan(scans[si]), detectors=scene.make_detectors(sc["detectors"]), ctf=ctf,
+                                                          max_batch_reduction=sc["mb_reduction"])))
+                        flat = [o for ol in outs for o in ol]
+                        arrays = dask.compute(*[o.array for o in flat], optimize_graph=simj.optimize_graph)
+                    for o, a in zip(flat, arrays):
+                        o._array = a
+                    for k, (ol, r) in enumerate(zip(outs, refs)):
+                        compare(ol if len(ol) > 1 else ol[0], r, "prism-equals-multislice", "lazy-joint", (max(rtol, same_tol[0]), atol))
+                    run.note("reach_joint_reductions")
+                except (HarnessError, InjectedCrash):
+                    raise
+                except Exception as e:  # noqa: BLE001
+                    run.violate("prism-succeeds", sig(sc, "raise", "lazy-joint", {"exc": type(e).__name__}),
+                                f"{len(j['reductions'])} reductions of one lazy S-matrix computed together raised {type(e).__name__}: {e} at {tb(e)}")
+                    break
+                cands = simj.sched.stats.park_candidates
     run.nontrivial = sc["potential"]["kind"] != "none" or bool(sc["aberrations"])
     if sc["aberrations"]:
         run.note("reach_aberrations")
